@@ -722,10 +722,12 @@ func yamlUnprintable(s string) bool {
 // in a space: trailing whitespace is invisible padding in a block
 // scalar, and a final all-space line is dropped entirely. Characters
 // which require escaping need double quotes instead. A leading space
-// or tab would need an explicit indentation indicator, which goccy
-// does not emit.
+// or tab on the first non-empty line would need an explicit indentation
+// indicator, which goccy does not emit; content made of line breaks only
+// has no line to take the indentation from.
 func blockLiteralSafe(s string) bool {
-	if len(s) == 0 || s[0] == ' ' || s[0] == '\t' {
+	first := strings.TrimLeft(s, "\n")
+	if len(first) == 0 || first[0] == ' ' || first[0] == '\t' {
 		return false
 	}
 	if strings.Contains(s, " \n") || strings.HasSuffix(s, " ") {
